@@ -300,6 +300,8 @@ def run(ctx):
         for sx in srcs:
             if sx.kind == 'assert' and sx.key_fn == unesc.FEED and not sx.discharged:
                 sx.discharged = 'decided by P5: all %d (state, byte) pairs of the unescaper were evaluated exactly with range checks' % ctx.unescaper_exact
+    import controls
+    controls.panic_cone(ctx)
     cone.judge(ctx, 'P6.panic-source', cone.group_keys(srcs), triage,
                lambda s: 'panic source reachable from filter parsing (%s) via %s' % (s.kind, ' -> '.join(x.split('::')[-1] for x in G.chain(parent, s.fn))))
     ctx.floor('P6', 'bodies in the filter-parser cone', len(parent), 20)
